@@ -157,6 +157,11 @@ structure Snapshot where
   perpOrders : List PerpOrderObs := []
   denomPrices : FMap String := []     -- per base unit, raw Dec
   perpAtom : Int := 0                 -- perpetual keeper's price of uatom, raw Dec
+  -- id counters (x/leveragelp PositionCount, x/perpetual MTPCount: last id handed out; x/tradeshield Pending*OrderCount: next id)
+  levIdCount : Nat := 0
+  perpIdCount : Nat := 0
+  spotIdCount : Nat := 0
+  perpOrderIdCount : Nat := 0
 deriving Inhabited
 
 namespace Snapshot
@@ -236,7 +241,11 @@ def parse (o : Json) : Snapshot :=
       { id := jN (f s "id"), owner := jS (f s "owner"), denom := jS (nth (f s "collateral") 0),
         amount := jI (nth (f s "collateral") 1), escrow := jS (f s "escrow"), rate := jI (f s "rate"), long := jB (f s "long") }
     denomPrices := pairList (f (f o "oracle") "denomPrices")
-    perpAtom := jI (f (f o "oracle") "perpAtom") }
+    perpAtom := jI (f (f o "oracle") "perpAtom")
+    levIdCount := jN (f lp "idCount")
+    perpIdCount := jN (f pp "idCount")
+    spotIdCount := jN (f ts "spotCount")
+    perpOrderIdCount := jN (f ts "perpCount") }
 
 end Snapshot
 end Elys
